@@ -59,6 +59,18 @@ M = [
     ('m18a', 'C18', 'concepts/contexts.py',
      "        for it in intent.powerset():\n            if it.prime() == extent:",
      "        for it in intent.powerset():\n            if it.prime() == extent and (it.count() != 2 or it == intent):"),
+    ('m12a', 'C12', 'concepts/formats/base.py',
+     "            return self.by_suffix[suffix.lower()]",
+     "            return self.by_suffix[suffix]"),
+    ('m12b', 'C12', 'concepts/formats/fimi.py',
+     "        yield [i for i, value in enumerate(row) if value]",
+     "        yield [i for i, value in enumerate(row, 1) if value]"),
+    ('m12c', 'C12', 'concepts/formats/table.py',
+     "    lines = (line.partition('#')[0].strip() for line in file)",
+     "    lines = (line.partition('#')[0].partition(';')[0].strip() for line in file)"),
+    ('m12d', 'C12', 'concepts/formats/csv_context.py',
+     "        header = [object_header] + list(properties)",
+     "        header = [object_header] + [p.strip() for p in properties]"),
     ('m13a', 'C13', 'concepts/definitions.py',
      "        self._objects.remove(obj)\n        self._pairs.difference_update((obj, p) for p in self._properties)",
      "        self._objects.remove(obj)"),
